@@ -247,7 +247,9 @@ func (c *Conn) processEncryptedClientHello(h *clientHello, isRetry bool) (*clien
 			}
 		}
 		if ctx == nil {
-			return nil, ErrIllegalParameter
+			// A first hello without an encapsulated key: nothing this
+			// key could open.
+			continue
 		}
 		aad, err := h.marshalAAD()
 		if err != nil {
